@@ -79,7 +79,11 @@ fn populate(dir: &Path, rng: &mut Rng, depth: usize, counter: &mut usize, hostil
         match rng.below(10) {
             0..=4 => names.push((ELIGIBLE_NAMES[rng.below(ELIGIBLE_NAMES.len())].to_string(), 0)),
             5..=7 => names.push((INELIGIBLE_NAMES[rng.below(INELIGIBLE_NAMES.len())].to_string(), 1)),
-            _ if depth > 0 => names.push((format!("sub{}", rng.below(4)), 2)),
+            _ if depth > 0 => {
+                // directory names that look like file names of either kind are still directories
+                let dn = if rng.chance(1, 4) { ["Vault.t.sol", "pkg.sol", "a.T.SOL", ".t.sol", "x.sol.d"][rng.below(5)].to_string() } else { format!("sub{}", rng.below(4)) };
+                names.push((dn, 2))
+            }
             _ => names.push((ELIGIBLE_NAMES[rng.below(ELIGIBLE_NAMES.len())].to_string(), 0)),
         }
     }
